@@ -90,6 +90,13 @@ def ahash(x):
         h.update(str(x.dtype).encode())
         h.update(repr(x.shape).encode())
         h.update(np.ascontiguousarray(x).tobytes())
+    elif hasattr(x, "getformat") and hasattr(x, "tocoo"):
+        # a scipy sparse matrix handed to the library by the caller: its STORAGE (not only its value) is the caller's
+        h.update(("scipy:" + x.getformat() + repr(tuple(x.shape))).encode())
+        for nm in ("data", "indices", "indptr", "row", "col", "offsets"):
+            v = getattr(x, nm, None)
+            if isinstance(v, np.ndarray):
+                h.update(nm.encode() + str(v.dtype).encode() + repr(v.shape).encode() + np.ascontiguousarray(v).tobytes())
     elif isinstance(x, (list, tuple)):
         for v in x:
             h.update(ahash(v).encode())
